@@ -316,13 +316,20 @@ def entry(chk: Check):
     chk.decide(not bad, "K-DISPATCH", "value-decoder-table", vctx.func,
                "Int <q/8, UInt <Q/8, Double <d/8, Bool <I/4 != 0, String UTF-16-LE, Array bytes; Free / Unknown / Node raise" if not bad else "; ".join(bad[:3]))
     # inline length prefix: only when not a file object pointer, slice [4 : 4 + len]
-    pre = [n for n in ast.walk(vctx.func) if isinstance(n, ast.Assign) and isinstance(n.value, ast.Subscript) and isinstance(n.value.slice, ast.Slice)
-           and ast.unparse(n.value.slice.lower) == "4"]
+    pre = []
+    for n in ast.walk(vctx.func):
+        if isinstance(n, ast.Assign) and isinstance(n.value, ast.Subscript) and isinstance(n.value.slice, ast.Slice):
+            t_ = R.expr(vctx, n.value, vctx.cfg.node_of[n])
+            if t_[0] == "sub" and t_[2][0] == "slice" and t_[2][1] == S.C(4):
+                pre.append((n, t_))
     okpre = False
     if pre:
-        conds = conds_sym(chk, vctx, pre[0])
+        n0, t0 = pre[0]
+        conds = conds_sym(chk, vctx, n0)
         tab = reach_table(conds, {"f": isf}, [{"f": False}, {"f": True}])
-        okpre = tab == [True, False] and ast.unparse(pre[0].value.slice.upper).replace(" ", "") in ("4+data_len", "data_len+4")
+        up = find(t0[2][2], lambda x: x[0] == "call" and x[1] == "ext:struct.unpack" and x[2][0] == S.C("<I"))
+        okpre = tab == [True, False] and bool(up) and S.equiv(t0[2][2], S.op("add", ("sub", up[0], S.C(0)), S.C(4)), n=10).equal is True
+    pre = [x[0] for x in pre]
     chk.decide(okpre, "K-FORMULA", "inline-length-prefix", pre[0] if pre else vctx.func, "inline strings / arrays: data[4 : 4 + u32 length]; file objects are not prefixed")
     # as_dict
     actx = chk.func(REL, "HyperVStorageKeyTableEntry.as_dict")
